@@ -30,6 +30,19 @@ def sunState (tm t0 tp : R) : List R := diffState sunSeries tm t0 tp sunStep
 /-- `MoonPropagator.propagate` (EME2000 frame) -/
 def moonState (tm t0 tp : R) : List R := diffState moonSeries tm t0 tp moonStep
 
+/-- `AnalyticalPropagator._iter` as the Sun / Moon propagators inherit it — `for date in dates: yield self.propagate(date)`,
+the dates being the caller's (`dates=`) or `Date.range(start, stop, step, inclusive=True)` —: a tabulation is the list of
+the single propagations.  `args` = the Julian centuries of (date − step, date, date + step) of each requested date; the
+public routes `Orbit.iter`, `Orbit.ephemeris`, `Orbit.ephem`, `propagator.iter` hand these states on unchanged. -/
+def table (state : R → R → R → List R) (args : List (R × R × R)) : List (List R) :=
+  args.map fun a => state a.1 a.2.1 a.2.2
+
+/-- a tabulation of the Sun through any of the routes -/
+def sunTable (args : List (R × R × R)) : List (List R) := table sunState args
+
+/-- a tabulation of the Moon through any of the routes -/
+def moonTable (args : List (R × R × R)) : List (List R) := table moonState args
+
 end Solar
 
 end BeyondVerif.F
